@@ -123,7 +123,8 @@ def design_results(ctx, labelled, out):
             if not r.ok:
                 raise vf.Infra("KeyDistribution.tla with the code's choices must satisfy its invariants on %s: %s" % (shape, r.violated))
             key = "code_%s%s" % (shape, "_eager" if eager else "_walks" if sim else "")
-            out[key] = {"ok": True, "distinct_states": r.distinct, "depth": r.depth, "mode": "random walks" if sim else "exhaustive"}
+            out[key] = {"ok": True, "states_generated": r.generated, "mode": "random walks"} if sim else \
+                       {"ok": True, "distinct_states": r.distinct, "depth": r.depth, "mode": "exhaustive"}
         else:
             if r.violated != "Completeness":
                 raise vf.Infra("vacuity guard: design %s=FALSE does not break Completeness on %s (%s)" % (flip, shape, r.violated))
